@@ -117,3 +117,11 @@ Proof. vm_compute. reflexivity. Qed.
 
 Lemma propdefs_match_reference : forall x, In x propdefs -> matches_reference x = true.
 Proof. exact (proj1 (forallb_forall matches_reference propdefs) sweep_matches_reference). Qed.
+
+Lemma wrap_sites_modelled : forall x, In x wrap_sites -> site_ok x = true.
+Proof. exact (proj1 (forallb_forall site_ok wrap_sites) sweep_wrap_sites). Qed.
+
+(* on the generated registry: after any access history from a wrapper made by Element.from_tag, the class is dispatch of the node's tag *)
+Lemma access_paths_dispatch : forall doc l w w', consistent model_registry doc w -> access_run model_registry doc w l = Some w' ->
+  exists n, node_at doc (w_pos w') = Some n /\ w_cls w' = dispatch (xtag n).
+Proof. intros doc l w w' C H. exact (access_run_consistent model_registry doc l w w' C H). Qed.
